@@ -20,6 +20,7 @@ import Compress.Proofs.BrotliCut
 import Compress.Proofs.XFlateReader
 import Compress.Proofs.BzImplCut
 import Compress.Proofs.FlateApi
+import Compress.Proofs.BrotliApi
 import Compress.Proofs.BzReaderApi
 import Compress.Proofs.FlateApiRefine
 import Compress.Proofs.MetaRApi
@@ -191,6 +192,96 @@ theorem C09_flate_io_error_identity (r : Reader) (n : Nat) :
   have hclose : ∀ e, (r.close).2 = some e → e = .closed ∨ ∃ x, e = liftErr r.tag x := by
     intro e h
     have h2 := Compress.Proofs.FlateApi.close_returns_err r (by rw [h]; simp)
+    rw [h] at h2
+    unfold Reader.err at h2
+    split at h2
+    · cases h2; exact Or.inl rfl
+    · cases hx : r.core.err with
+      | none => rw [hx] at h2; cases h2
+      | some x => rw [hx] at h2; simp at h2; exact Or.inr ⟨x, h2⟩
+  refine ⟨fun t ht => ⟨fun h => ?_, fun h => ?_⟩, fun t' h => ?_⟩
+  · rcases hread _ h with h1 | ⟨x, h1⟩
+    · cases h1
+    · exact (key x).1 t ht h1.symm
+  · rcases hclose _ h with h1 | ⟨x, h1⟩
+    · cases h1
+    · exact (key x).1 t ht h1.symm
+  · rcases h with h | h
+    · rcases hread _ h with h1 | ⟨x, h1⟩
+      · cases h1
+      · exact (key x).2 t' h1.symm
+    · rcases hclose _ h with h1 | ⟨x, h1⟩
+      · cases h1
+      · exact (key x).2 t' h1.symm
+
+open Compress.Brotli.Api in
+/-- **brotli.Reader, sticky** (`sd`: the static dictionary). Once a Read has returned an error `e` - whatever the state it was
+    called in - every later Read returns no data and `e` and changes nothing, for any number of
+    Reads (until Close or Reset). -/
+theorem C09_brotli_api_sticky (sd : ByteArray) (r : Reader) (n : Nat) (e : AErr) (h : (r.read sd n).2.2 = some e) (ns : List Nat) :
+    (∀ m, (r.read sd n).1.read sd m = ((r.read sd n).1, [], some e)) ∧
+    Reader.run sd (r.read sd n).1 (ns.map .read) = ((r.read sd n).1, ns.map (fun _ => .read [] (some e))) := by
+  have hl := Compress.Proofs.BrotliApi.read_latches sd r n e h
+  have hs : ∀ m, (r.read sd n).1.read sd m = ((r.read sd n).1, [], some e) := by
+    intro m
+    by_cases hd : r.done = true
+    · have := Compress.Proofs.BrotliApi.read_done sd r hd n
+      rw [this] at h ⊢
+      cases h
+      exact Compress.Proofs.BrotliApi.read_done sd r hd m
+    · have hd : r.done = false := by simpa using hd
+      exact Compress.Proofs.BrotliApi.read_sticky sd _ e hl.1 (hl.2.1.trans hd) (hl.2.2.2 hd) m
+  refine ⟨hs, ?_⟩
+  induction ns with
+  | nil => rfl
+  | cons a ns ih => simp only [List.map_cons, Reader.run, Reader.step, hs a, ih]
+
+open Compress.Brotli.Api in
+/-- **brotli.Reader, Close.** What `Close` returns, exactly: nil iff nothing is latched, or `io.EOF`
+    is latched, or the reader is closed already; otherwise the latched error itself.  After a Read
+    that returned `e` (on a reader that was not closed): nil iff `e` is `io.EOF`, else `e`; and with
+    any other error latched the whole reader stays as it is under every further Read and Close. -/
+theorem C09_brotli_close_result (sd : ByteArray) (r : Reader) :
+    ((r.close).2 = none ↔ (r.err = none ∨ r.err = some .eof ∨ r.done = true)) ∧
+    ((r.close).2 ≠ none → (r.close).2 = r.err) ∧
+    (∀ n e, r.done = false → (r.read sd n).2.2 = some e →
+      ((r.read sd n).1.close).2 = (if e = .eof then none else some e) ∧
+      (e ≠ .eof → ∀ ops : List Op, (∀ op ∈ ops, op.noReset = true) →
+        Reader.run sd (r.read sd n).1 ops = ((r.read sd n).1, ops.map (Compress.Proofs.BrotliApi.stuckRes e)))) := by
+  refine ⟨Compress.Proofs.BrotliApi.close_nil_iff r, Compress.Proofs.BrotliApi.close_returns_err r, ?_⟩
+  intro n e hd h
+  have hl := Compress.Proofs.BrotliApi.read_latches sd r n e h
+  have hd1 : (r.read sd n).1.done = false := hl.2.1.trans hd
+  refine ⟨?_, fun hne ops hn => Compress.Proofs.BrotliApi.failed_forever sd _ e hl.1 hd1 (hl.2.2.2 hd) hne ops hn⟩
+  rw [Compress.Proofs.BrotliApi.close_eq, hl.1, hd1]
+  by_cases he : e = .eof
+  · subst he; simp
+  · simp [he]
+
+open Compress.Brotli.Api in
+/-- **brotli.Reader, I/O errors verbatim (error identity).** Over a source that fails with the error
+    `t`, no Read and no Close ever reports `io.ErrUnexpectedEOF`, and a source error that is reported
+    is `t` itself; over a source that does not fail no source error is reported. -/
+theorem C09_brotli_io_error_identity (sd : ByteArray) (r : Reader) (n : Nat) :
+    (∀ t, r.tag = some t → (r.read sd n).2.2 ≠ some .unexpectedEOF ∧ (r.close).2 ≠ some .unexpectedEOF) ∧
+    (∀ t', (r.read sd n).2.2 = some (.other t') ∨ (r.close).2 = some (.other t') → r.tag = some t') := by
+  have key : ∀ x : Brotli.Impl.BErr, (∀ t, r.tag = some t → liftErr r.tag x ≠ .unexpectedEOF) ∧
+      (∀ t', liftErr r.tag x = .other t' → r.tag = some t') := by
+    intro x
+    cases x <;> cases ht : r.tag <;> simp [liftErr]
+  have hread : ∀ e, (r.read sd n).2.2 = some e → e = .closed ∨ ∃ x, e = liftErr r.tag x := by
+    intro e h
+    by_cases hd : r.done = true
+    · rw [Compress.Proofs.BrotliApi.read_done sd r hd] at h; cases h; exact Or.inl rfl
+    · have hd : r.done = false := by simpa using hd
+      rw [Compress.Proofs.BrotliApi.read_open sd r hd] at h
+      simp only at h
+      cases hx : (Brotli.Impl.read sd (readFuel r.core) r.core n).2.2 with
+      | none => rw [hx] at h; cases h
+      | some x => rw [hx] at h; simp at h; exact Or.inr ⟨x, h.symm⟩
+  have hclose : ∀ e, (r.close).2 = some e → e = .closed ∨ ∃ x, e = liftErr r.tag x := by
+    intro e h
+    have h2 := Compress.Proofs.BrotliApi.close_returns_err r (by rw [h]; simp)
     rw [h] at h2
     unfold Reader.err at h2
     split at h2
